@@ -10,11 +10,15 @@ from vlib import gcrun as G
 PLANS = list(G.PLANS)
 THEOREMS = ["Mmtk.IntPtr.isMmtkObject_iff", "Mmtk.IntPtr.isMmtkObject_eq", "Mmtk.IntPtr.isMmtkObject_valid", "Mmtk.IntPtr.findPrev_spec",
             "Mmtk.IntPtr.findObject_spec", "Mmtk.IntPtr.findFromInternal_spec", "Mmtk.IntPtr.findLos_spec",
-            "Mmtk.IntPtr.findLos_limit_partial", "Mmtk.IntPtr.los_limit_witness"]
-KEYS = ("gc:findint-mismatch", "gc:ismo-missing", "gc:ismo-stale", "gc:findint-los-limit")
+            "Mmtk.IntPtr.findLos_limit_partial", "Mmtk.IntPtr.los_limit_witness",
+            "Mmtk.IntPtr.findLos_none_of_no_vo", "Mmtk.IntPtr.findLos_reads_mapped_only", "Mmtk.IntPtr.hoisted_reads_unmapped"]
+KEYS = ("gc:findint-mismatch", "gc:ismo-missing", "gc:ismo-stale", "gc:findint-los-limit", "gc:findint-crash")
 CHUNK = 1 << 22
+USIZE_MAX = (1 << 64) - 1
+BIG_LIMITS = (1 << 20, 1 << 28, 1 << 32, 1 << 40, USIZE_MAX)
+LOS_NAMES = ("los", "pageprotect")
 META = {
-    "text": "Lookup model (Model/IntPtr.lean): `is_mmtk_object` (SFT dispatch + VO bit), the data-address view of `find_prev_non_zero_value_simple` on the VO bits with its mapped-grain cache, `vo_bit::find_object_from_internal_pointer` (+ `is_internal_ptr`), the per-policy wrappers (Immix / native mark-sweep cap the limit by the maximal object size, the empty SFT answers None) and the page walk of `LargeObjectSpace::find_object_from_internal_pointer`. Theorems for every bitmap: `isMmtkObject_iff` / `_valid` (Some(addr) iff the address is the reference of a valid object), `findPrev_spec` (nearest set bit at or below p, less than `limit` bytes below), `findFromInternal_spec` (with non-overlapping objects: o iff ref(o) <= p < start(o)+size(o) and p - ref(o) < n, else None), `findLos_spec` (first VO-set address of the nearest page >= align_down(p-n) with a non-zero first VO word, iff p is inside that object). Real heaps: after every forced exhaustive GC of generated programs on all 11 plans x {1,4} workers a probe list — per object: start, ref-8, ref, ref+8, a middle word, last word, one-past-end; gaps; page and chunk edges; 8, space start +-8, space end, usize::MAX & !7, side-metadata addresses, unaligned interior pointers; n in {1, 8, 9, size, 4096, 2^20} — is sent as `ismo` / `findint`; the Lean monitor evaluates the model on its valid-object set (snapshot + never-collected objects) with the chunk map asked through `ismapped`, an independent Python oracle evaluates the property statement.",
+    "text": "Lookup model (Model/IntPtr.lean): `is_mmtk_object` (SFT dispatch + VO bit), the data-address view of `find_prev_non_zero_value_simple` on the VO bits with its mapped-grain cache, `vo_bit::find_object_from_internal_pointer` (+ `is_internal_ptr`), the per-policy wrappers (Immix / native mark-sweep cap the limit by the maximal object size, the empty SFT answers None) and the page walk of `LargeObjectSpace::find_object_from_internal_pointer`. Theorems for every bitmap: `isMmtkObject_iff` / `_valid` (Some(addr) iff the address is the reference of a valid object), `findPrev_spec` (nearest set bit at or below p, less than `limit` bytes below), `findFromInternal_spec` (with non-overlapping objects: o iff ref(o) <= p < start(o)+size(o) and p - ref(o) < n, else None), `findLos_spec` (first VO-set address of the nearest page >= align_down(p-n) with a non-zero first VO word, iff p is inside that object), `findLos_none_of_no_vo` (no VO bit at or below p's page: None for EVERY limit, no hypothesis on what is mapped — a stale pointer into the lowest large object), `findLos_reads_mapped_only` (memory safety of the page walk as non-interference: with grain-uniform mapping the answer does not depend on VO words of unmapped pages; `hoisted_reads_unmapped` = decide-witness that testing is_mapped once before the loop breaks it). Real heaps: after every forced exhaustive GC of generated programs on all 11 plans x {1,4} workers a probe list — per object: start, ref-8, ref, ref+8, a middle word, last word, one-past-end; gaps; page and chunk edges; 8, space start +-8, space end, usize::MAX & !7, side-metadata addresses, unaligned interior pointers; n in {1, 8, 9, size, 4096, 2^20}; stale pointers: for large objects that were swept (always the lowest-addressed one ever allocated, a few others) start / reference / middle / last word / next page x n in {2^20, 2^28, 2^32, 2^40, usize::MAX}, and addresses in the LOS above every live large object, with `ismapped` asked for every mmap grain the walk enters; program class los-stale (first a `rawalloc` = memory between alloc and post_alloc, no VO bit; then the lowest large object dies first, then all, then the pages are reused) — is sent as `ismo` / `findint`; a process that dies inside a `findint` is the violation gc:findint-crash (program = replay); the Lean monitor evaluates the model on its valid-object set (snapshot + never-collected objects) with the chunk map asked through `ismapped`, an independent Python oracle evaluates the property statement.",
     "note": "Level: proof of the lookup algorithm over arbitrary bitmaps, partial w.r.t. the code. Deviation kept under the stable key gc:findint-los-limit: the large-object space applies max_search_bytes to pages, so an interior pointer more than n bytes above the reference is still resolved (`los_limit_witness`, `findLos_limit_partial`). `is_mmtk_object` has the documented precondition addr != 0 and word-aligned (debug assertion): such addresses are only sent to `findint`.",
     "technique": "Lean 4 proof (search loops with explicit fuel, for all bitmaps) + exact differential of real lookups against the executable model + independent oracle",
     "category": "proof",
@@ -75,20 +79,103 @@ def d_ip(ctx, args):
     for p in wild:
         probes.append((p, rnd.choice([1, 8, 4096, 1 << 20])))
     probes.append((0, 8))
-    asked = set()
+    asked = {}
     for p, n in probes:
         if p < 0 or p >= 1 << 64:
             continue
         for c in {p // CHUNK, max(p - n, 0) // CHUNK, (max(p - n, 0) & ~4095) // CHUNK}:
-            if c not in asked:
-                asked.add(c)
-                ctx.send(f"ismapped {c * CHUNK:#x}")
+            _ismapped(ctx, asked, c)
         if p and p % 8 == 0:
             ctx.send(f"ismo {p:#x}")
         ctx.send(f"findint {p:#x} {n}")
+    stale_probes(ctx, rnd, asked, refoff, {r for r, _ in objs})
 
 
-DIRECTIVES = {"ip": d_ip, "vo": C07.d_vo}
+def _ismapped(ctx, asked, c):
+    if c not in asked:
+        r = ctx.send(f"ismapped {c * CHUNK:#x}")
+        asked[c] = r == "true"
+    return asked[c]
+
+
+def _walk_known(ctx, asked, p, n, cap=48):
+    """the page walk of the LOS lookup enters one mmap grain (4 MB chunk) after the other, downwards from p's, and stops
+    at the first unmapped one or at align_down(p - n): ask `ismapped` for exactly those chunks (the monitor's model
+    reads them). False when more than `cap` chunks would be needed (the probe is then not sent)."""
+    c, low = p // CHUNK, (max(p - n, 0) & ~4095) // CHUNK
+    k = 0
+    while c >= low and k < cap:
+        if not _ismapped(ctx, asked, c):
+            return True
+        c -= 1
+        k += 1
+    return c < low
+
+
+def los_history(pairs):
+    """every object ever allocated into a LargeObjectSpace: [(start, ref, size, id)] in address order"""
+    out = {}
+    for op, res in pairs:
+        t = op.split()
+        if t[0] in ("alloc", "alloco") and res.startswith("a="):
+            kv = dict(x.split("=", 1) for x in res.split() if "=" in x)
+            if kv.get("space", "").rstrip("0123456789") in LOS_NAMES:
+                out[int(t[2])] = (int(kv["a"], 16), int(kv["r"], 16), int(kv["sz"]), int(t[2]))
+    return sorted(out.values())
+
+
+def stale_probes(ctx, rnd, asked, refoff, live_refs, others=3):
+    """stale pointers: for large objects that have been swept — always the LOWEST-addressed one ever allocated, plus a
+    few others — `findint <start + k> <n>` with k in {0, ref, middle, last word, next page} and n in {2^20, 2^28, 2^32,
+    2^40, usize::MAX}; and addresses in the LOS above every live large object, same limits. With no valid object at
+    or below the pointer the page walk runs down to the start of the space: it must stop at the first unmapped mmap
+    grain and answer None (a process that dies here is `gc:findint-crash`)."""
+    hist = los_history(ctx.pairs)
+    if not hist:
+        return
+    dead = [h for h in hist if h[1] not in live_refs]
+    probes = []
+    ks = lambda start, ref, size: [0, ref - start, (size // 16) * 8, size - 8, (size + 4095) & ~4095]
+    if dead and dead[0] == hist[0]:
+        start, ref, size, _ = dead[0]
+        probes += [(start + k, n) for k in ks(start, ref, size) for n in BIG_LIMITS]
+    pool = dead[1:] if dead and dead[0] == hist[0] else dead
+    for start, ref, size, _ in (pool if len(pool) <= others else rnd.sample(pool, others)):
+        kk = ks(start, ref, size)
+        probes += [(start + rnd.choice(kk), n) for n in BIG_LIMITS]
+    live = [h for h in hist if h[1] in live_refs]
+    top = max(h[0] + ((h[2] + 4095) & ~4095) for h in hist)           # above everything ever allocated
+    above = [top, top + 8, (top & ~(CHUNK - 1)) + CHUNK - 8, (top & ~(CHUNK - 1)) + CHUNK]
+    if live:
+        s, r, z, _ = live[-1]
+        above += [s + ((z + 4095) & ~4095), s + ((z + 4095) & ~4095) + 4096 + 8]
+    for p in above:
+        probes += [(p, n) for n in rnd.sample(BIG_LIMITS, 2)]
+    for p, n in probes:
+        if not _walk_known(ctx, asked, p, n):
+            continue
+        if ctx.send(f"findint {p:#x} {n}") is None:
+            return
+
+
+def d_rawprobe(ctx, args):
+    """!rawprobe <size>: `rawalloc` (memory_manager::alloc without post_alloc) of a large object, then lookups into it:
+    memory handed out, no VO bit yet — every answer must be None unless the pointer lies in a valid object"""
+    size = int(args[0])
+    res = ctx.send(f"rawalloc 0 {size} Los")
+    if not res or not res.startswith("raw="):
+        return
+    a = int(res.split()[0][4:], 16)
+    if not any(o == "spaces" for o, _ in ctx.pairs):
+        ctx.send("spaces")
+    asked = {}
+    for k in (0, 8, (size // 16) * 8, size - 8, (size + 4095) & ~4095):
+        for n in (8, 4096) + BIG_LIMITS:
+            if _walk_known(ctx, asked, a + k, n) and ctx.send(f"findint {a + k:#x} {n}") is None:
+                return
+
+
+DIRECTIVES = {"ip": d_ip, "vo": C07.d_vo, "rawprobe": d_rawprobe}
 
 
 def with_ip(ops, seed, nobj):
@@ -123,6 +210,32 @@ def gen_objs(rnd, plan, info, heap, workers):
     return G.Program(plan, with_ip(G.normalize(g.ops), rnd.randrange(1 << 20), 25), heap=heap, workers=workers, tag="objs")
 
 
+def gen_los_stale(rnd, plan, info, heap, workers):
+    """large objects only: the first (= lowest-addressed) one dies first while higher ones live, then every one dies
+    (no valid object left in the LOS), then the freed pages are reused; probes after every forced exhaustive GC"""
+    g = G.Gen(rnd, plan, info, "fs_main", heap)
+    g.anchor()
+    # the very first large allocation of the space, between `alloc` and `post_alloc`: nothing valid at or below it
+    g.ops.append(f"!rawprobe {rnd.choice([9000, 20000, 70000])}")
+    sizes = [rnd.choice([9000, 12280, 20000, 40000, 70000, 200000]) for _ in range(rnd.randrange(4, 9))]
+    xs = [g.alloc(0, rnd.choice([0, 1, 2]), sz, "Los", slot=k) for k, sz in enumerate(sizes)]
+    g.ops.append(f"!rawprobe {rnd.choice([9000, 40000])}")          # above live large objects
+    g.ops.append("gc 0 1")
+    g.root(0, 0, None)                                   # the lowest large object dies
+    if len(xs) > 3:
+        g.root(0, rnd.randrange(1, len(xs) - 1), None)
+    g.ops.append("gc 0 1")
+    for k in range(len(xs)):
+        g.root(0, k, None)                               # all of them die
+    g.ops.append("gc 0 1")
+    for k in range(rnd.randrange(1, 4)):                 # the pages are reused
+        g.alloc(0, 1, rnd.choice([9000, 30000, 100000]), "Los", slot=20 + k)
+    g.ops.append("gc 0 1")
+    g.root(0, 20, None)
+    g.ops.append("gc 0 1")
+    return G.Program(plan, with_ip(G.normalize(g.ops), rnd.randrange(1 << 20), 12), heap=heap, workers=workers, tag="los-stale")
+
+
 def make_suite(seed, tier):
     progs = []
     thorough = tier == "thorough"
@@ -135,6 +248,8 @@ def make_suite(seed, tier):
                 rnd = random.Random(f"{seed}/C08/{plan}/{w}/{rep}")
                 heap = 64 * G.MB
                 ps = [gen_objs(rnd, plan, info, heap, w)]
+                if info["collects"] and "Los" in info["allocmap"]:
+                    ps.append(gen_los_stale(random.Random(f"{seed}/C08/los/{plan}/{w}/{rep}"), plan, info, heap, w))
                 if w == 1 or thorough:
                     mixed = G.gen_mixed(rnd, plan, info, "fs_main", heap, 200 if not thorough else 800, w)
                     mixed.ops = with_ip(mixed.ops, rnd.randrange(1 << 20), 12)
@@ -174,7 +289,12 @@ def _findint_statement(t, res, valid, exact):
 
 
 def oracle(trace):
-    return [v for v in C07.oracle(trace, findint=_findint_statement) if v[1] in KEYS]
+    out = [v for v in C07.oracle(trace, findint=_findint_statement) if v[1] in KEYS]
+    for idx, (op, res) in enumerate(trace.pairs):
+        # a lookup is a query: whatever the address and the limit, it answers — a process that dies in it broke the property
+        if op.startswith("findint ") and res.startswith("crash:"):
+            out.append((idx, "gc:findint-crash", f"the process died in `{op}` ({res})"))
+    return sorted(set(out))
 
 
 def stats(traces):
@@ -185,23 +305,34 @@ def stats(traces):
     for tr in traces:
         p = tr.program
         refs = {}
+        hist = los_history(tr.pairs)
+        lowest, insnap = (hist[0] if hist else None), {}
         for op, res in tr.pairs:
             t = op.split()
             if t[0] == "snap":
-                G._note_refs(res, refs)
+                insnap = {}
+                G._note_refs(res, insnap)
+                refs.update(insnap)
             elif t[0] == "findint":
                 ev += 1
                 bump("findint:" + ("object" if res not in ("none", "unsupported") and not res.startswith("panic") else res))
-                bump(f"limit:{t[2]}" if int(t[2]) in (1, 8, 9, 4096, 1 << 20) else "limit:size")
+                bump(f"limit:{t[2]}" if int(t[2]) in (1, 8, 9, 4096) + BIG_LIMITS else "limit:size")
                 if res.isdigit() and t[1].startswith("0x"):
                     a = int(t[1], 16)
                     if refs.get(int(res)) != a:
                         nontriv.add((p.plan, p.workers, res, t[2], a & 0xfff))
+                elif res == "none" and int(t[2]) >= 1 << 28 and t[1].startswith("0x") and lowest is not None \
+                        and lowest[0] <= int(t[1], 16) < lowest[0] + lowest[2] and lowest[3] not in insnap:
+                    # the walk started inside the (dead) lowest large object: nothing below it, it ran to the space start
+                    bump("stale:lowest-los-object-walk-to-space-start")
+                    nontriv.add((p.plan, p.workers, "stale-lowest", t[2], (int(t[1], 16) - lowest[0]) & ~7))
             elif t[0] == "ismo":
                 ev += 1
                 bump("ismo:" + ("object" if res.isdigit() else res))
             elif t[0] == "ismapped":
                 bump("ismapped:" + res)
+            elif t[0] == "rawalloc":
+                bump("rawalloc:" + ("ok" if res.startswith("raw=") else res.split()[0]))
     return ev, len(nontriv), dist
 
 
@@ -216,7 +347,7 @@ CORPUS = [
 ]
 MALFORMED = ["gcw reset", "gcw res ok", "gcw op findint", "gcw res none", "gcw op findint 0x10 8", "gcw res 7", "gcw op findint zz 8", "gcw res none",
              "gcw op ismapped 0x400000", "gcw res maybe", "gcw op spaces", "gcw res spaces a:zz:1,b", "gcw op findint 0x20000000010 8", "gcw res 3",
-             "gcw op ismo 0x18", "gcw res 9", "gcw bogus"]
+             "gcw op ismo 0x18", "gcw res 9", "gcw op findint 0x60000400008 18446744073709551615", "gcw res crash:rc=-11", "gcw bogus"]
 
 
 def los_limit_oracle(trace):
@@ -242,9 +373,10 @@ def oracle_all(trace):
 
 def main(argv=None):
     return W.run_check("C08", argv, ["MmtkModel.Props.C08"], THEOREMS, KEYS, make_suite, oracle_all, CORPUS, stats,
-                       rule="one evaluation = one `findint` / `ismo` probe compared with the model (Lean monitor) and with the property statement (oracle); non-trivial = a `findint` that resolved a pointer other than the object's reference to that object; distinct by (plan, workers, object, limit, page offset)",
+                       rule="one evaluation = one `findint` / `ismo` probe compared with the model (Lean monitor) and with the property statement (oracle); non-trivial = a `findint` that resolved a pointer other than the object's reference to that object, or a stale pointer into the swept lowest large object with a limit >= 2^28 (the walk runs to the start of the space) answered None; distinct by (plan, workers, object, limit, page offset)",
                        assumptions=["probes are sent right after a forced exhaustive GC + snapshot: the valid objects are the snapshot's objects plus the never-collected ones (no finalizers / soft references in these programs)",
                                     "`is_mmtk_object` precondition: addr != 0 and word-aligned (other addresses go to `findint` only)",
                                     "debug build: `find_prev_non_zero_value` asserts fast == simple, so the simple (reference) loop is what is modelled; max_search_bytes > 0",
-                                    "Map64 layout: one SFT per 2^41-byte slot (space names from `spaces`), mmapper granularity 4 MB (chunk states from `ismapped`)"],
+                                    "Map64 layout: one SFT per 2^41-byte slot (space names from `spaces`), mmapper granularity 4 MB (chunk states from `ismapped`, asked for every grain a walk enters; a grain is mapped as a whole)",
+                                    "a `findint` that kills the process (SIGSEGV / abort) is reported as gc:findint-crash, any other dead process as gc:crash"],
                        directives=DIRECTIVES, malformed=MALFORMED)
